@@ -1163,7 +1163,8 @@ class Engine:
         if isinstance(v, (int, str, bool)) or v is None:
             return v
         if isinstance(v, bytes):
-            raise Unsupported("bytes literal")
+            # bytes are lists of character codes in this model (vc/builtins_model.py)
+            return self.new_heap(SByteList(list(v)))
         if v is Ellipsis:
             return None
         raise Unsupported("constant %r" % (v,))
